@@ -58,6 +58,19 @@ AIMS = {
         "`floor` vs `round` vs `trunc` for negatives, `abs_diff`, integer division, `powi` vs repeated "
         "multiplication, `<=` vs `<` at a tolerance, f64 `max` / `min` with NaN or signed zero)."
     ),
+    "8": (
+        "This round, aim for mistakes around OWNERSHIP, OPTIONS and ERRORS that a reviewer would wave "
+        "through: a sibling function's body copied and adapted incompletely (one identifier or one "
+        "branch left from the sibling); `unwrap_or_default` / `unwrap_or(..)` / `.ok()` / `filter_map` / "
+        "`flatten` silently turning a missing value or an error into a default or dropping the element; "
+        "`Option::take` / `mem::take` / `drain` leaving the source emptied on an error path; mutating a "
+        "clone instead of the original (or the original instead of a clone) so that a change is lost "
+        "or leaks; collecting into `Result<Vec<_>>` vs. collecting partial results; `entry().or_insert` "
+        "vs `insert` (first wins vs last wins); `extend` vs replace; `append` order; an `else` branch "
+        "or a match arm dropped for one enum value; a field forgotten in a struct literal that ends "
+        "with `..Default::default()` or `..self.clone()`; swapped arguments of the same type; a "
+        "negated condition that only matters for one combination of two flags."
+    ),
 }
 
 
